@@ -20,8 +20,16 @@ Steps == IF FAMILY = 5
          ELSE {<<5, 0>>, <<-7, 0>>, <<0, 6>>, <<0, -9>>, <<5, 12>>, <<12, 5>>, <<-5, 12>>, <<12, -5>>, <<-12, -5>>, <<-5, -12>>}
 Starts == {<<6, 6>>, <<12, 10>>, <<17, 15>>}
 InRange(p) == 2 <= p[1] /\ p[1] <= SIZE - 2 /\ 2 <= p[2] /\ p[2] <= SIZE - 2
-Init == subs = <<>> /\ cur = <<>> /\ hs = SALT
-Done == Len(subs) = NSUB
+\* DASH = 2: two subpaths, a long open polyline and a small closed shape, in either order
+\* (pattern restart per subpath, closed subpaths shorter than the first dash)
+LongOpen == { << <<3, 4>>, <<21, 4>>, <<21, 12>> >>, << <<2, 20>>, <<14, 20>>, <<14, 8>>, <<20, 8>> >>, << <<4, 2>>, <<4, 22>> >> }
+SmallClosed == { << <<8, 10>>, <<11, 10>>, <<11, 14>> >>, << <<15, 14>>, <<19, 14>>, <<19, 17>>, <<15, 17>> >>,
+                 << <<9, 16>>, <<13, 16>> >>, << <<16, 3>>, <<19, 7>>, <<16, 7>> >> }
+Init == IF DASH = 2
+        THEN /\ \E a \in LongOpen, b \in SmallClosed, o \in {0, 1} : subs = IF o = 0 THEN <<a, b>> ELSE <<b, a>>
+             /\ cur = <<>> /\ hs \in {SALT + k : k \in 0..EnvInt("NH", 5)}
+        ELSE subs = <<>> /\ cur = <<>> /\ hs = SALT
+Done == Len(subs) = (IF DASH = 2 THEN 2 ELSE NSUB)
 Begin == /\ ~Done /\ cur = <<>>
          /\ \E s \in Starts : cur' = <<s>> /\ hs' = (hs * 31 + s[1] * 7 + s[2]) % 1000003
          /\ UNCHANGED subs
@@ -43,7 +51,8 @@ Widths == <<2, 4, 6, 3>>
 T(m, d) == [m |-> m, mden |-> d]
 Transforms == << T(<<1, 0, 0, 1, 0, 0>>, 1), T(<<1, 0, 0, 1, 0, 0>>, 1), T(<<2, 0, 0, 2, 1, 1>>, 4), T(<<0, 1, -1, 0, 24, 0>>, 1),
                  T(<<2, 0, 0, 2, -20, -18>>, 1), T(<<1, 0, 0, 1, 0, 0>>, 2), T(<<-1, 0, 0, 1, 24, 0>>, 1), T(<<3, 4, -4, 3, 40, -20>>, 5) >>
-Dashes == << <<6, 4>>, <<9, 3>>, <<5>>, <<40, 3>>, <<3, 6, 9, 3>>, <<12, 6, 3>>, <<4, 4, 4, 4, 8, 8>>, <<100, 5>> >>
+Dashes == IF DASH = 2 THEN << <<20, 5>>, <<15, 6>>, <<30, 4>>, <<12, 6, 3>>, <<25, 3>> >>
+          ELSE << <<6, 4>>, <<9, 3>>, <<5>>, <<40, 3>>, <<3, 6, 9, 3>>, <<12, 6, 3>>, <<4, 4, 4, 4, 8, 8>>, <<100, 5>> >>
 Offsets == <<0, 3, -4, 7, 25, -31, 100, 1>>
 RECURSIVE SubOps(_, _, _)
 SubOps(s, k, closed) ==
@@ -54,7 +63,8 @@ RECURSIVE AllOps(_, _, _)
 ClosingOK(s) == LET dx == s[1][1] - s[Len(s)][1]  dy == s[1][2] - s[Len(s)][2]
                 IN \E k \in 1..40 : k * k = dx * dx + dy * dy
 AllOps(ss, i, h) == IF i > Len(ss) THEN <<>>
-                    ELSE SubOps(ss[i], 1, ((h \div 3) + i) % 3 # 0 /\ ClosingOK(ss[i])) \o AllOps(ss, i + 1, h)
+                    ELSE SubOps(ss[i], 1, IF DASH = 2 THEN ss[i] \in SmallClosed
+                                          ELSE ((h \div 3) + i) % 3 # 0 /\ ClosingOK(ss[i])) \o AllOps(ss, i + 1, h)
 Variant(j) ==
   LET h == hs + 7919 * j
       tr == Transforms[((h \div 5) % Len(Transforms)) + 1]
@@ -62,10 +72,10 @@ Variant(j) ==
       \* round pieces need a similarity: all menu transforms are
       style0 == [width |-> Widths[((h \div 11) % 4) + 1], cap |-> Caps[((h \div 13) % 3) + 1], join |-> jn,
                  miter |-> Miters[((h \div 17) % 4) + 1]]
-      style == IF DASH = 1 THEN style0 @@ [dash |-> Dashes[((h \div 19) % Len(Dashes)) + 1],
+      style == IF DASH >= 1 THEN style0 @@ [dash |-> Dashes[((h \div 19) % Len(Dashes)) + 1],
                                            dash_offset |-> Offsets[((h \div 23) % Len(Offsets)) + 1]]
                ELSE style0
   IN [id |-> ToString(<<"gk", FAMILY, hs, j>>), fam |-> "stroke", kind |-> "stroke", w |-> SIZE, h |-> SIZE, den |-> 1,
-      ops |-> AllOps(subs, 1, h), style |-> style, ctm |-> tr, want_dash_path |-> (DASH = 1), k |-> FAMILY]
+      ops |-> AllOps(subs, 1, h), style |-> style, ctm |-> tr, want_dash_path |-> (DASH >= 1), k |-> FAMILY]
 Emit == Done => \A j \in 0..(NVAR - 1) : PrintT(ToJson(Variant(j)))
 =============================================================================
